@@ -23,14 +23,15 @@ def D : Decoders := ⟨fun _ => true, fun _ => true, fun _ => true⟩
 def srv : Server := ⟨1, 3600⟩
 def W : World :=
   { cursors := [cm] ++ World.empty.cursors, calls := km :: World.empty.calls,
-    caches := (setCache World.empty 0 ((World.empty.caches 0).put km.callId (cacheIdent km.who) ⟨km.method, km.body⟩)).caches }
+    caches := (setCache World.empty 0 ((World.empty.caches 0).put km.callId (cacheIdent km.who)
+      (cacheDeadline srv.ttl km.t 100, ⟨km.method, km.body⟩))).caches }
 /-- the re-spelled token -/
 def req : Req := ⟨.anonymous, "gen".toList, 150, [66], none⟩
 
 def pinned : Shape := ⟨false, true⟩
 
 theorem reachable : Reachable pinned E z D srv [] W := by
-  refine Reachable.step Reachable.start (Step.init World.empty 0 km (some (100, [9, 9], 1)) ?_ ?_ ?_)
+  refine Reachable.step Reachable.start (Step.init World.empty 0 km (some (100, [9, 9], 1)) 100 ?_ ?_ ?_)
   · have f : ∀ b : Bytes, b.length < 10 → fitsLen b := fun b h => by unfold fitsLen; tok_consts; omega
     refine ⟨by decide, by decide, ⟨f _ (by decide), f _ (by decide), f _ (by decide), f _ (by decide), f _ (by decide)⟩, trivial, ?_⟩
     exact nulFree_of_chars (by decide)
@@ -53,7 +54,7 @@ theorem noncanonical_accepted :
     (∃ effs acc, recover pinned E z D srv (W.caches 0) req = (effs, .ok acc)) ∧
     (∀ c ∈ W.cursors, req.cursor ≠ E.enc (c.tok z srv.key)) := by
   refine ⟨⟨_, _, (by decide : recover pinned E z D srv (W.caches 0) req
-      = ([.stateDecode, .bindCallState, .rehydrate], .ok ⟨[9, 9], List.replicate 16 7, ⟨"gen".toList, body⟩, true⟩))⟩, ?_⟩
+      = ([.stateDecode, .bindCallState, .rehydrate], .ok ⟨[9, 9], List.replicate 16 7, ⟨"gen".toList, body⟩, true, 0⟩))⟩, ?_⟩
   intro c hc
   simp only [W, World.empty, List.append_nil, List.mem_singleton] at hc
   subst hc
